@@ -11,8 +11,10 @@ ParentClosed(S) == \A p \in S : Par(p) = "" \/ Par(p) \in S
 AllLayouts == {L \in SUBSET (Items \ {"@ign"}) : ParentClosed(L) /\ ("f.THIS" \in L <=> "f.OTHER" \in L)}
 Layouts(ign) == IF LaySel = {} THEN AllLayouts ELSE LaySel \cap AllLayouts
 WithIgn(L, ign) == IF ign = {} THEN L ELSE L \cup {"@ign"}
-PreChoices(L) == IF Flavour = "bzr" THEN {P \in {{}, {"f"}, {"d"}, {"d", "d/f"}} : P \subseteq L}
-                 ELSE SUBSET ({"f", "d/f"} \cap L)
+\* f is pre-versioned only where that matters: where a conflict on it can be recorded
+PreChoices(L) == LET withF == IF "f.THIS" \in L THEN {"f"} ELSE {} IN
+                 IF Flavour = "bzr" THEN {P \in {{}, {"d"}, {"d", "d/f"}} \cup {{"f"} \cap withF} : P \subseteq L}
+                 ELSE {P \in SUBSET ({"d/f"} \cup withF) : P \subseteq L}
 ConfChoices(L, P) == IF "f" \in P /\ "f.THIS" \in L THEN {{}, {"f"}} ELSE {{}}
 ArgChoices(L) == {A \in SUBSET ({"."} \cup (ArgPaths \cap L)) : A # {} /\ Cardinality(A) <= MaxArgs}
 Cases == UNION {UNION {UNION {UNION {
